@@ -29,6 +29,12 @@ CLAIMS.update({
  'C15': dict(text='Coq theorems for every history with explicit event logs: dropping a MaybeUninit-typed handle (5 kinds) runs no element destructor whatever was written, destroys the header once and frees once; initialised-typed handles destroy every element once in order; assume_init (5 forms) changes only the type; the deprecated writers on a shared handle panic leaving table and heap unchanged. Tied by the mech stream (uninit kinds, slot writes, assume_init, sharing states).',
              note=NOTE_MECH),
 })
+CLAIMS.update({
+ 'C11': dict(text='Coq theorems for every payload shape (unbounded sizes/alignments, ZST, over-aligned, slices of any length, trait objects): the offset subtracted by from_raw (the offset_of_data chain translated from the source each run) is exactly the compiler offset of the data field that as_ptr/into_raw add, that address is >= 8 and aligned, heap_ptr is the block start, thin and fat offsets agree, every handle struct has exactly one NonNull field besides PhantomData (one word, null niche), and in every history the address a handle yields depends only on block and kind. The remaining raw forms (OffsetArc, ArcBorrow, from_raw_slice, ThinArc, arc-swap) are tied by comparing their bodies with the ones the model was written against. Dynamic tie: exhaustive ptr stream over the 16x8 shape matrix x 7 forms (offsets vs the allocator block, round trips, size_of/Option) and the layout stream. One clause is a recorded KNOWN FINDING (F3: ThinArc raw forms return the block start) with a witness theorem.',
+             note='Trusted: Coq kernel; tools/extract.py incl. the golden-body comparison (tools/golden_forms.py); rustc layout rules as in Layout.v and transparent-over-NonNull => one word with niche (both validated dynamically by the ptr stream); 64-bit target.'),
+ 'C12': dict(text='Coq theorems: the value address of every payload shape is even (so bit 0 is free) for any 8-aligned block; for the four bit expressions translated from arc_union.rs each run, on every even 64-bit address: from_first tests first and borrows the same address, from_second tests second and borrows the address with the tag stripped, and the two stored words never coincide; borrow() dispatches to the variant of the same name and clone/drop/accessors go through it; in every history of the handle machine a union handle views a block built as its variant\'s type, reports its variant, clones to the same variant and block. Dynamic tie: ptr stream over all ordered pairs of 16x8 shapes (byte-aligned, ZST and equal types included) for both constructors, and the mech stream with unions interleaved with plain Arcs.',
+             note=NOTE_MECH + ' Blocks are at least 8-aligned because every request has alignment >= 8 (C05).'),
+})
 ORDER = ['C%02d' % i for i in range(1, 18)]
 NA_REASON = 'check under construction; not claimed yet (see DESIGN.md section 6 for the planned theorem)'
 
